@@ -602,6 +602,74 @@ func genC20(g *Gen) {
 		p.Events = append(p.Events, Event{Kind: "node-down", When: When{Step: 1}, Node: reps[g.R.Intn(len(reps))]})
 	}
 	reads := []string{"get", "strlen", "exists", "ttl", "type", "hgetall", "llen", "scard", "zcard", "smembers", "hlen", "pttl"}
+	if p.Variant == "pattern" {
+		// regular request orders: one client repeats a short cycle of (master, read|write) steps - strict rotation over the
+		// masters, write-then-read pairs, runs of equal masters. A replica choice that is not independent of the request
+		// sequence (a shared counter, a hash of the position, ...) shows up as a replica that is never chosen.
+		L := g.R.Range(2, 8)
+		type stepT struct {
+			m     int
+			write bool
+		}
+		var cyc []stepT
+		switch g.R.Intn(4) {
+		case 0: // strict rotation over the first k masters
+			k := g.R.Range(2, m)
+			for i := 0; i < k; i++ {
+				cyc = append(cyc, stepT{i, false})
+			}
+		case 1: // write-then-read pairs, master after master
+			k := g.R.Range(2, m)
+			for i := 0; i < k; i++ {
+				cyc = append(cyc, stepT{i, true}, stepT{i, false})
+			}
+		default:
+			for i := 0; i < L; i++ {
+				cyc = append(cyc, stepT{g.R.Intn(m), g.R.Pct(25)})
+			}
+		}
+		readsIn := map[int]int{}
+		for _, st := range cyc {
+			if !st.write {
+				readsIn[st.m]++
+			}
+		}
+		minReads := 1 << 30
+		for _, n := range readsIn {
+			if n < minReads {
+				minReads = n
+			}
+		}
+		if len(readsIn) == 0 {
+			cyc = append(cyc, stepT{0, false})
+			minReads = 1
+		}
+		reps := 260/minReads + 1
+		if reps*len(cyc) > 2600 {
+			reps = 2600 / len(cyc)
+		}
+		cp := ClientPlan{Addr: clientAddr(0), Mode: "pipeline", CloseAfterSent: -1, CloseAfterReplies: -1}
+		oneCmd := g.R.Pct(50)
+		ri := 0
+		for rep := 0; rep < reps; rep++ {
+			for _, st := range cyc {
+				tok := Tok(0, ri)
+				rg := base.Nodes[st.m].Slots[0]
+				slot := g.R.Range(rg[0], rg[1])
+				if st.write {
+					cp.Reqs = append(cp.Reqs, g.Single(tok, "set", Key(tok, 0, slot, ""), "v"))
+				} else if oneCmd {
+					cp.Reqs = append(cp.Reqs, g.Single(tok, "get", Key(tok, 0, slot, "")))
+				} else {
+					cp.Reqs = append(cp.Reqs, g.Single(tok, g.R.Pick(reads), Key(tok, 0, slot, "")))
+				}
+				ri++
+			}
+		}
+		p.Clients = append(p.Clients, cp)
+		p.Notes = append(p.Notes, fmt.Sprintf("cycle %v x %d", cyc, reps))
+		return
+	}
 	nc := g.R.Range(1, 3)
 	perMaster := 300
 	for ci := 0; ci < nc; ci++ {
